@@ -11,7 +11,8 @@ for NAME in $NAMES; do
   if ! git apply --check $D/patch.diff 2>/dev/null; then echo "$NAME: patch does not apply"; continue; fi
   git apply $D/patch.diff
   RES=""; DETAIL=""
-  for P in $(/verif/bin/mrocheck -list); do
+  mkdir -p /tmp/seed_verif_$$ && cp /verif/known_findings.json /tmp/seed_verif_$$/ 2>/dev/null
+for P in $(/verif/bin/mrocheck -list); do
     O=$(/verif/bin/mrocheck -property $P -verif /tmp/seed_verif_$$ 2>&1 | grep -v '^WARNING')
     if echo "$O" | grep -q '^VIOLATION'; then
       RES="$RES $P"
